@@ -333,6 +333,11 @@ func (sc *Scheduler) Status(g *ExecutionGraph) Status {
 	if sc.isError() {
 		return StatusError
 	}
+	if !sc.isFinished(g) {
+		// Some node has not started yet (the run is between two steps or
+		// waiting for a retry): the run is still in progress, not succeeded.
+		return StatusRunning
+	}
 	return StatusSuccess
 }
 
